@@ -30,7 +30,8 @@ EXTENDS AstShapes, FormatRel
 CONSTANTS GapMax,      \* gaps 0..GapMax of the target form are enumerated (the driver skips gaps a form does not have)
           PairGapMax,  \* pairs of gaps i < j <= PairGapMax get two block comments
           Nested,      \* TRUE: the target form also stands in every slot of every other form
-          OptionSet    \* the formatter option combinations
+          OptionSet,   \* the formatter option combinations (block / line comments inline under every one of them)
+          OwnLineOptions \* the combinations under which block / line comments are also placed on their own line
 Kinds == {"block", "line", "doc-line", "doc-block"}
 Layouts == {"inline", "own-line", "blank-before", "blank-after", "semi-before", "semi-after"}
 
@@ -64,7 +65,8 @@ LayoutsOf(k) == IF k \in {"doc-line", "doc-block"} THEN {"inline", "own-line"} E
 Combos(nested) ==
   IF nested THEN {[kinds |-> <<k>>, layout |-> "inline", opt |-> Opt0] : k \in {"block", "line"}}
   ELSE UNION {{[kinds |-> <<k>>, layout |-> lay, opt |-> Opt0] : lay \in LayoutsOf(k)} : k \in Kinds}
-       \cup {[kinds |-> <<k>>, layout |-> lay, opt |-> o] : k \in {"block", "line"}, lay \in {"inline", "own-line"}, o \in OptionSet \ {Opt0}}
+       \cup {[kinds |-> <<k>>, layout |-> "inline", opt |-> o] : k \in {"block", "line"}, o \in OptionSet \ {Opt0}}
+       \cup {[kinds |-> <<k>>, layout |-> "own-line", opt |-> o] : k \in {"block", "line"}, o \in OwnLineOptions \ {Opt0}}
 Singles(nested) == {[gaps |-> <<g>>, kinds |-> c.kinds, layout |-> c.layout, opt |-> c.opt] : g \in 0..GapMax, c \in Combos(nested)}
 Pairs == {[gaps |-> <<i, j>>, kinds |-> ks, layout |-> "inline", opt |-> Opt0] :
             i \in 0..PairGapMax, j \in 0..PairGapMax, ks \in {<<"block", "block">>, <<"line", "block">>}}
